@@ -46,3 +46,10 @@ def pick(table, i):
         if i == k:
             return table[k]
     raise AssertionError("index out of range (missing leading assumption)")
+
+
+def untraced():
+    """Context manager: run the enclosed code natively (not symbolically traced).  Only for code that handles concrete data
+    exclusively (e.g. parsing a concrete response in the oracle) -- a symbolic value touched inside would be an error."""
+    from crosshair import tracers
+    return tracers.NoTracing()
